@@ -310,3 +310,5 @@ func allHashers() []HSpec {
 func jsonUnmarshal(b []byte, v any) error { return json.Unmarshal(b, v) }
 
 func bigOf(x int64) *big.Int { return big.NewInt(x) }
+
+func bytesBuf() *bytes.Buffer { return &bytes.Buffer{} }
